@@ -118,11 +118,16 @@ func (c OptionalColumn) Read() string {
 	return s
 }
 
+// ReadOr returns the value of the cell, or s if the column is missing or the cell is blank.
 func (c OptionalColumn) ReadOr(s string) string {
 	if c.i < 0 {
 		return s
 	}
-	return c.f.currentRow.cells[c.i]
+	cell := c.f.currentRow.cells[c.i]
+	if cell == "" {
+		return s
+	}
+	return cell
 }
 
 func (f *File) NextRow() bool {
